@@ -26,7 +26,9 @@ def run_mi(verdict, label, constants, invariants, emit=True, timeout=3000, cover
     try:
         cfg = E.write_cfg(os.path.join(wd, 'mc.cfg'), constants=constants,
                           invariants=list(invariants) + (['Emit'] if emit else []))
+        E.log(f'tlc {label}')
         res = E.run_tlc('MIEstimator', cfg, timeout=timeout, coverage=coverage)
+        E.log(f'tlc done {res.distinct}')
         E.require_ok(res, label)
         verdict.add_tlc(res, label)
         verdict.tlc_violation(res, label)
@@ -47,15 +49,19 @@ def _chunks(lst, n):
     return [lst[i:i + k] for i in range(0, len(lst), k)]
 
 
-def real_eval(mode, cases, *, poison=None, reps=None, procs=14, env=None, timeout=1800, stride=False):
+def real_eval(mode, cases, *, poison=None, reps=None, procs=14, env=None, timeout=1800, stride=False, max_crashes=2):
     """Evaluate cases in `procs` child processes.  Returns (results aligned with cases, crashes:
     list of (case_index, rc, stderr)).  A crashed chunk is bisected so that the crashing case is
     identified.  stride=True deals the cases round-robin (balances expensive cases)."""
+    E.log(f'real_eval {mode} {len(cases)} cases')
     results = [None] * len(cases)
     crashes = []
+    crashes_seen = []
+    bisecting = []
+    unbisected = []
     warm_numba()
 
-    def work(idxs):
+    def work(idxs, depth=0):
         req = {'mode': mode, 'cases': [cases[i] for i in idxs]}
         if poison is not None:
             req['poison'] = poison
@@ -65,9 +71,20 @@ def real_eval(mode, cases, *, poison=None, reps=None, procs=14, env=None, timeou
         if rc == 0 and out and 'results' in out and len(out['results']) == len(idxs):
             return [(idxs, out['results'], None)]
         if len(idxs) == 1:
+            crashes_seen.append(idxs[0])
             return [(idxs, None, (rc, err))]
+        if len(crashes_seen) >= max_crashes or (depth == 0 and len(bisecting) >= max_crashes):
+            # enough concrete crashing cases identified / being identified: do not bisect further chunks
+            unbisected.append(idxs)
+            return [(idxs, None, None)]
+        if depth == 0:
+            bisecting.append(1)
         mid = len(idxs) // 2
-        return work(idxs[:mid]) + work(idxs[mid:])
+        left = work(idxs[:mid], depth + 1)
+        if any(b is not None for _, _, b in left) and len(crashes_seen) >= max_crashes:
+            unbisected.append(idxs[mid:])
+            return left + [(idxs[mid:], None, None)]
+        return left + work(idxs[mid:], depth + 1)
 
     if not cases:
         return results, crashes
@@ -80,10 +97,10 @@ def real_eval(mode, cases, *, poison=None, reps=None, procs=14, env=None, timeou
     with cf.ThreadPoolExecutor(max_workers=procs) as ex:
         for parts in ex.map(work, spans):
             for idxs, res, bad in parts:
-                if bad is None:
+                if res is not None:
                     for i, r in zip(idxs, res):
                         results[i] = r
-                else:
+                elif bad is not None:
                     crashes.append((idxs[0], bad[0], bad[1]))
     return results, crashes
 
